@@ -11,7 +11,7 @@ from contracts.ghost_mps import World, GT, install_world_norms, state_of, make_p
 
 PROPERTY = 'C06'
 P_ = 'yastn.tn.mps._mps_parent:_MpsMpoParent'
-FUNCTIONS = [f"{P_}.{m}" for m in ('__mul__', '__rmul__', '__neg__', '__truediv__', 'conj', 'transpose', 'conjugate_transpose', 'reverse_sites',
+FUNCTIONS = [f"{P_}.{m}" for m in ('copy', 'clone', '__mul__', '__rmul__', '__neg__', '__truediv__', 'conj', 'transpose', 'conjugate_transpose', 'reverse_sites',
                                    'shallow_copy', '__init__', 'sweep')] + ['yastn.tn.mps._mps_obc:add', 'yastn.tn.mps._mps_obc:multiply']
 ASSUMPTIONS = [
     "state(psi) = factor * prod(scales) * word: contraction is multilinear (the only algebraic fact used)",
@@ -96,6 +96,26 @@ def h_conj_transpose(V, N, nr_phys, op):
                                                     and r.A[n].uid == psi.A[n].uid for n in range(N)))
     V.check('factor-and-central-block-position-kept', r.factor is psi.factor and r.pC == psi.pC)
     V.check('operand-untouched', unchanged(psi, snap) and r is not psi)
+
+
+def h_mps_copy(V, N, nr_phys, with_block, op):
+    """ copy()/clone(): EVERY tensor of the container -- sites and central block -- is replaced by its own copy; shallow_copy shares """
+    if not V.symbolic:
+        return
+    w, (psi,) = setup(V, N, nr_phys)
+    if with_block is not None:
+        psi.pC = with_block
+        psi.A[with_block] = GT(w, V.real('c'), ('C',), 'block')
+    snap = snapshot(psi)
+    r = V.call(getattr(psi, op))
+    V.check('new-container', r is not psi and r.A is not psi.A and sorted(map(str, r.A)) == sorted(map(str, psi.A)) and r.pC == psi.pC
+            and r.factor is psi.factor)
+    if op == 'shallow_copy':
+        V.check('shallow-copy-points-to-the-same-tensors', all(r.A[k] is psi.A[k] for k in psi.A))
+    else:
+        V.check('every-entry-including-the-central-block-is-an-independent-copy',
+                all(r.A[k] is not psi.A[k] and getattr(r.A[k], 'copied_from', None) is psi.A[k] for k in psi.A))
+    V.check('source-untouched', unchanged(psi, snap))
 
 
 def h_reverse(V, N, nr_phys, with_block):
@@ -253,6 +273,8 @@ def units(tier):
             for op in ('conj', 'transpose', 'conjugate_transpose'):
                 U.append(('h_conj_transpose', f"N={N},nr_phys={nr},{op}", dict(N=N, nr_phys=nr, op=op)))
             for blk in [None] + [(n, n + 1) for n in range(-1, N)]:
+                for op in ('copy', 'clone', 'shallow_copy'):
+                    U.append(('h_mps_copy', f"N={N},nr_phys={nr},block={blk},{op}", dict(N=N, nr_phys=nr, with_block=blk, op=op)))
                 U.append(('h_reverse', f"N={N},nr_phys={nr},block={blk}", dict(N=N, nr_phys=nr, with_block=blk)))
             for ns in (1, 2, 3):
                 for wa in (False, True):
